@@ -243,4 +243,21 @@ theorem classifySCION_accept (cfg : Cfg) (sc : ScionCtx) (prev : Prev) (req : Re
           · exact h
     · exact h
 
+theorem mkRequest_cTx0 (cfg : Cfg) (prev : Prev) (reference : String) (now : Int) :
+    (mkRequest cfg prev reference now).cTx0 = now := by
+  unfold mkRequest; split <;> rfl
+
+theorem mkRequest_interleaved (cfg : Cfg) (prev : Prev) (reference : String) (now : Int)
+    (h : (mkRequest cfg prev reference now).interleaved = true) :
+    prev.reference = reference ∧ cfg.interleavedMode = true ∧
+    (mkRequest cfg prev reference now).origin = prev.sRx ∧
+    (mkRequest cfg prev reference now).rx = prev.cRx ∧ (mkRequest cfg prev reference now).tx = prev.cTx := by
+  unfold mkRequest at h ⊢
+  split
+  · rename_i hc
+    simp only [Bool.and_eq_true, beq_iff_eq] at hc
+    exact ⟨hc.1.2.symm, hc.1.1, rfl, rfl, rfl⟩
+  · rename_i hc; rw [if_neg hc] at h; cases h
+
+
 end ScionTime.ClientNtp
